@@ -13,16 +13,20 @@ package harness
 // flag.CommandLine and os.Stdout are set per run.
 
 import (
+	"bytes"
 	"flag"
 	"io"
 	"os"
 	"path/filepath"
+	"sort"
 	"strings"
 	"testing"
 
+	gedcom "github.com/elliotchance/gedcom/v39"
 	"github.com/elliotchance/gedcom/v39/cmdsim"
 	"github.com/elliotchance/gedcom/v39/cmdsim/simlog"
 	"github.com/elliotchance/gedcom/v39/cmdsim/simsignal"
+	"github.com/elliotchance/gedcom/v39/html"
 	"simrt"
 )
 
@@ -167,11 +171,29 @@ func diffArgs(cfg *CompareCfg) []string {
 	if cfg.PreferPtr >= 0 {
 		a = append(a, "-prefer-pointer-above", ftoa(cfg.PreferPtr))
 	}
-	if cfg.DiffShow != "" {
-		a = append(a, "-show", cfg.DiffShow)
+	show, sort := cfg.DiffShow, cfg.DiffSort
+	switch cfg.FlagCase {
+	case 1:
+		if sort == "" {
+			sort = "written-name"
+		}
+		sort = strings.ToUpper(sort[:1]) + sort[1:]
+		if i := strings.Index(sort, "-"); i > 0 && i+1 < len(sort) {
+			sort = sort[:i+1] + strings.ToUpper(sort[i+1:i+2]) + sort[i+2:]
+		}
+	case 2:
+		if show == "" {
+			show = "all"
+		}
+		show = strings.ToUpper(show)
+	case 3:
+		sort = "by-shoe-size"
 	}
-	if cfg.DiffSort != "" {
-		a = append(a, "-sort", cfg.DiffSort)
+	if show != "" {
+		a = append(a, "-show", show)
+	}
+	if sort != "" {
+		a = append(a, "-sort", sort)
 	}
 	return a
 }
@@ -215,11 +237,135 @@ func runDiffCLI(t *testing.T, c *Case, cr *CaseResult) *CaseResult {
 	if cliOutcome(cr, c.Prop, run, "gedcom diff") {
 		return cr
 	}
+	if c.Compare.FlagCase != 0 && run.exit == nil && !(run.res.Outcome == "crash") {
+		cr.violate(c.Prop+"/cli-output", "gedcom diff accepts a flag value it does not document", strings.Join(diffArgs(c.Compare), " "))
+	}
 	if run.exit == nil && run.res.Outcome == "completed" {
 		page := string(run.files["diff.html"])
 		if !strings.Contains(page, "</html>") {
 			cr.violate(c.Prop+"/cli-output", "gedcom diff finished without a complete page", page)
+			return cr
+		}
+		// the command is a front end: for the same files and thresholds its
+		// page is the page the library produces (judged when the matching is
+		// unambiguous - no two candidate pairs tie)
+		ref := newCompareReference(c, c.Compare)
+		probe := &CaseResult{Prop: c.Prop, Probes: map[string]int64{}, Counters: map[string]int64{}}
+		if !ref.ambiguous(probe) {
+			want, ok := libraryDiffPage(t, cr, c)
+			if ok {
+				cr.Probes["cli_page_compared_with_library"]++
+				// (the order of rows that tie in the sort key - all unmatched
+				// rows, equal names - follows the order in which Compare
+				// delivered them, which is not part of the property: the
+				// pages are compared as multisets of rows and cards)
+				if pagePieces(string(want)) != pagePieces(page) {
+					cr.violate(c.Prop+"/cli-output", "the page of gedcom diff differs from the library's page for the same files and options",
+						"command line: "+strings.Join(diffArgs(c.Compare), " ")+"\n"+piecesDiff(page, string(want)))
+				}
+			}
 		}
 	}
 	return cr
+}
+
+// libraryDiffPage renders the page for the case's files and options by calling
+// the library the way the documentation of the diff command describes it:
+// thresholds from the flags (library defaults where a flag is absent), jobs,
+// -show and -sort, everybody shown. Sequential default schedule.
+func libraryDiffPage(t *testing.T, cr *CaseResult, c *Case) ([]byte, bool) {
+	ld, err1 := decode(c.Docs[0])
+	rd, err2 := decode(c.Docs[1])
+	if err1 != nil || err2 != nil {
+		return nil, false
+	}
+	cfg := c.Compare
+	var buf bytes.Buffer
+	// the documented defaults of the filter flags (name format and so on)
+	oldFlags := flag.CommandLine
+	flag.CommandLine = flag.NewFlagSet("defaults", flag.ContinueOnError)
+	ff := &gedcom.FilterFlags{}
+	ff.SetupCLI()
+	flag.CommandLine.Parse(nil)
+	flag.CommandLine = oldFlags
+	sub := &CaseResult{Prop: c.Prop, Probes: map[string]int64{}, Counters: map[string]int64{}}
+	res, _ := runSim(t, sub, c.Prop, simrt.Config{Mode: "default", MapOrder: "identity", Today: parseToday(c.Today)}, func() {
+		so := gedcom.NewSimilarityOptions()
+		so.MinimumWeightedSimilarity = gedcom.DefaultMinimumSimilarity
+		so.PreferPointerAbove = gedcom.DefaultMinimumSimilarity
+		so.MinimumSimilarity = gedcom.DefaultMinimumSimilarity
+		if cfg.MinWS >= 0 {
+			so.MinimumWeightedSimilarity = cfg.MinWS
+		}
+		if cfg.PreferPtr >= 0 {
+			so.PreferPointerAbove = cfg.PreferPtr
+		}
+		o := gedcom.NewIndividualNodesCompareOptions()
+		o.SimilarityOptions = so
+		o.Jobs = 1
+		cmp := ld.Individuals().Compare(rd.Individuals(), o)
+		show, sort := cfg.DiffShow, cfg.DiffSort
+		if show == "" {
+			show = html.DiffPageShowAll
+		}
+		if sort == "" {
+			sort = html.DiffPageSortWrittenName
+		}
+		progress := make(chan gedcom.Progress)
+		done := make(chan struct{})
+		simrt.Go("harness:libpage.progress", func() {
+			for {
+				simrt.Yield("harness:libpage.recv")
+				_, ok := <-progress
+				if !ok {
+					close(done)
+					return
+				}
+			}
+		})
+		html.NewDiffPage(cmp, ff, "", show, sort, progress, o, html.LivingVisibilityShow).WriteHTMLTo(&buf)
+		simrt.Yield("harness:libpage.close")
+		close(progress)
+		simrt.Yield("harness:libpage.done")
+		<-done
+	})
+	cr.Runs++
+	if res.Outcome != "completed" {
+		return nil, false
+	}
+	return buf.Bytes(), true
+}
+
+// pagePieces cuts a diff page at the starts of table rows and cards and sorts
+// the pieces.
+func pagePieces(page string) string {
+	page = strings.ReplaceAll(page, "<tr", "\x00<tr")
+	page = strings.ReplaceAll(page, "<a name=", "\x00<a name=")
+	page = strings.ReplaceAll(page, "<div class=\"card\">", "\x00<div class=\"card\">")
+	pieces := strings.Split(page, "\x00")
+	sort.Strings(pieces)
+	return strings.Join(pieces, "\n")
+}
+
+func piecesDiff(got, want string) string {
+	count := map[string]int{}
+	for _, p := range strings.Split(pagePieces(got), "\n") {
+		count[p]++
+	}
+	for _, p := range strings.Split(pagePieces(want), "\n") {
+		count[p]--
+	}
+	var out []string
+	for p, n := range count {
+		if n > 0 {
+			out = append(out, "only in the command's page: "+clip(p, 300))
+		} else if n < 0 {
+			out = append(out, "only in the library's page: "+clip(p, 300))
+		}
+	}
+	sort.Strings(out)
+	if len(out) > 6 {
+		out = out[:6]
+	}
+	return strings.Join(out, "\n")
 }
